@@ -782,6 +782,8 @@ func genFacts(repo string) (string, error) {
 	fmt.Fprintf(&b, "/-- core/task/scheduler.go: a descriptor whose machine_id has no offer becomes undeployable in the pre-processing, and\n    the offers are processed (tasks launched) only `if len(descriptorsUndeployable) == 0` -/\ndef roundAbandonedWhenUndeployable : Bool := %v\n\n", rndAbandoned)
 	fmt.Fprintf(&b, "/-- core/task/manager.go: the channel acquireTasks puts into the `outcomeCh` field of the request it hands to the scheduler\n    is made afresh in every pass of DEPLOYMENT_ATTEMPTS_LOOP by `make(chan ResourceOffersOutcome, N)`, acquireTasks receives\n    from it once per pass; this is N (0: no capacity argument = unbuffered, or shape not recognised) -/\ndef outcomeChanCapacity : Nat := %d\n\n", outCap)
 	fmt.Fprintf(&b, "/-- core/task (every non-test file): exactly one send on an `outcomeCh` and one receive from `tasksToDeploy`, both in the\n    same function of scheduler.go (resourceOffers), outside every loop of it; the send is on the channel of the request\n    that was taken, under no condition but `deploymentRequestPayload != nil`, and no `return` lies between the two -/\ndef oneVerdictPerRequest : Bool := %v\n\n", oneVerdictPerRequest(fset, filepath.Join(repo, "core/task")))
+	// the response time-out a transition gives its targets (facts_deadline.go)
+	b.WriteString(deadlineFacts(repo))
 	b.WriteString("end Gen.C02\n")
 	return b.String(), nil
 }
